@@ -41,6 +41,11 @@ def evaluate(case):
             spec.append(E(b"d/" + nm, "dir", 0o751, 5, 6))
             spec.append(E(b"d/" + nm + b"/child", "file", 0o600, content=b"child"))
             spec.append(E(b"n/" + nm, "chr", 0o620, 0, 7, dev=(4, 5 + i)))
+        for an, am, au, ag in case.get("attrs", []):
+            spec.append(E(b"f/" + an, "file", am, au, ag, content=b"attrs of " + an))
+            spec.append(E(b"d/" + an, "dir", am, ag, au))
+        for dn, kind, mj, mn in case.get("devs", []):
+            spec.append(E(b"n/" + dn, kind, 0o600, 0, 0, dev=(mj, mn)))
         for i, tg in enumerate(targets):
             nm = names[i % len(names)] if names else b"x"
             spec.append(E(b"l/%d" % i + nm, "slink", 0o777, 1, 2, target=tg))
@@ -53,7 +58,9 @@ def evaluate(case):
         label = "names %r targets %r unpack-root %r" % (names, targets, uroot)
 
         def viol(fp, what, extra=None):
-            files = {"case.json": json.dumps(dict(names=[n.decode("latin1") for n in names], targets=[t.decode("latin1") for t in targets], unpack_root=uroot))}
+            files = {"case.json": json.dumps(dict(names=[n.decode("latin1") for n in names], targets=[t.decode("latin1") for t in targets], unpack_root=uroot,
+                                                      devs=[[d[0].decode("latin1")] + list(d[1:]) for d in case.get("devs", [])],
+                                                      attrs=[[a_[0].decode("latin1")] + list(a_[1:]) for a_ in case.get("attrs", [])]))}
             if extra:
                 files.update(extra)
             return dict(status="violation", fp=fp, what=label + "\n" + what, files=files)
@@ -98,7 +105,7 @@ def evaluate(case):
         b.pop(b"", None)
         diffs = treegen.diff_trees(a, b, ignore=("mtime", "xattrs"))
         if diffs:
-            kind = "target" if "target" in diffs[0] else "name"
+            kind = "target" if "target" in diffs[0] else ("device" if "rdev" in diffs[0] else "name")
             return viol("C16|tree-differs|%s|%s" % (kind, blame()), "rebuilt tree differs:\n  " + "\n  ".join(diffs[:5]) + "\nlisting:\n" + listing.decode("latin1")[:600], {"listing.txt": listing})
         return dict(status="ok", sha=sha(listing))
     finally:
@@ -113,7 +120,9 @@ def main():
         T.update(build.build_tools(build.variant("asan"), os.path.join(sd, "bin"), tools=["gensquashfs", "rdsquashfs"]))
         if cr.replay:
             c = json.load(open(os.path.join(cr.replay, "case.json")))
-            print(evaluate(dict(names=[n.encode("latin1") for n in c["names"]], targets=[t.encode("latin1") for t in c["targets"]], unpack_root=c["unpack_root"])))
+            print(evaluate(dict(names=[n.encode("latin1") for n in c["names"]], targets=[t.encode("latin1") for t in c["targets"]], unpack_root=c["unpack_root"],
+                                devs=[(d[0].encode("latin1"), d[1], d[2], d[3]) for d in c.get("devs", [])],
+                                attrs=[(a_[0].encode("latin1"), a_[1], a_[2], a_[3]) for a_ in c.get("attrs", [])])))
             return 1
         L = 2 if cr.quick else 3
         names = list(strings(L))
@@ -137,6 +146,14 @@ def main():
             nms = [n for n in (ch + b"a", b"a" + ch, b"a" + ch + b"a", ch) if n not in (b".", b"..")]
             for ur in (None, "out"):
                 cases.append(dict(names=nms, targets=nms, unpack_root=ur))
+        # numeric fields: device numbers over the boundaries of the 12-bit major / 20-bit minor encoding, both device kinds; permission bits and owners
+        MAJ, MIN = [0, 1, 255, 256, 4095], [0, 1, 255, 256, 65535, 65536, 70000, 1048575]
+        for kind in ("chr", "blk"):
+            for ur in (None, "out"):
+                cases.append(dict(names=[b"k"], targets=[], unpack_root=ur, devs=[(b"%s_%d_%d" % (kind.encode(), mj, mn), kind, mj, mn) for mj in MAJ for mn in MIN]))
+        MODES, IDS = [0, 0o1, 0o644, 0o1000, 0o2000, 0o4000, 0o4755, 0o7777], [0, 1, 65535, 65536, (1 << 31) - 1, 1 << 31, (1 << 32) - 2]
+        for ur in (None, "out"):
+            cases.append(dict(names=[b"k"], targets=[], unpack_root=ur, attrs=[(b"m%o_u%d" % (m, u), m, u, IDS[(i + j) % len(IDS)]) for i, m in enumerate(MODES) for j, u in enumerate(IDS)]))
         if not cr.quick:
             # 16 names per image
             for i in range(0, len(names), 16):
